@@ -282,6 +282,11 @@ Proof.
   - inversion H; subst. apply Inv_remove_var, HI.
   - eapply Inv_set_max_lag; eauto.
   - inversion H; subst. exact HI.
+  - unfold orient in H. destruct (negb _); [discriminate|].
+    destruct (nth_error (layers s) 1) as [ly|]; [|discriminate]. destruct (negb (has_edge ly u v)); [discriminate|].
+    destruct (remove_edge s 1 _ _) as [s1|] eqn:E1; [|discriminate].
+    eapply Inv_add_edge; [eapply Inv_remove_edge; [exact HI | exact E1] | exact H].
+  - destruct (query_has_edge s i u v); inversion H; subst. exact HI.
 Qed.
 
 Lemma Inv_step s o : Inv s -> Inv (fst (step s o)).
@@ -375,6 +380,11 @@ Proof.
   - inversion E; reflexivity.
   - unfold set_max_lag in E. destruct (n =? 0); [discriminate|]. destruct (_ <=? _); inversion E; reflexivity.
   - inversion E; reflexivity.
+  - unfold orient in E. destruct (negb _); [discriminate|].
+    destruct (nth_error (layers s) 1) as [ly|]; [|discriminate]. destruct (negb (has_edge ly u v)); [discriminate|].
+    destruct (remove_edge s 1 _ _) as [s1|] eqn:E1; [|discriminate].
+    rewrite (Hae _ _ _ _ _ E). eapply Hre; eauto.
+  - destruct (query_has_edge s i u v); inversion E; reflexivity.
 Qed.
 
 Lemma cls_run s ops : cls (run s ops) = cls s.
